@@ -77,8 +77,12 @@ Record case := {
   k_cval : ival;             (* e.convex_conj(y) *)
   k_ccshape : ishape;        (* e.convex_conj.convex_conj *)
   k_ccval : ival;            (* e.convex_conj.convex_conj(x) *)
-  k_prox : ivec;             (* e.proximal(sigma)(x) *)
-  k_cprox : ivec;            (* e.convex_conj.proximal(1/sigma)(x/sigma) *)
+  k_prox : ivec;             (* e.proximal(sigma)(x)                         out-of-place *)
+  k_prox_f : ivec;           (* e.proximal(sigma)(x, out=fresh element) *)
+  k_prox_a : ivec;           (* e.proximal(sigma)(x, out=x)                  aliased, as the solvers call it *)
+  k_cprox : ivec;            (* e.convex_conj.proximal(1/sigma)(x/sigma)     out-of-place *)
+  k_cprox_f : ivec;          (* ... out=fresh element *)
+  k_cprox_a : ivec;          (* ... out=its own input *)
   k_grad : ivec;             (* e.gradient(x) *)
   k_cgval : ival             (* e.convex_conj(e.gradient(x)) *)
 }.
@@ -108,8 +112,9 @@ Definition check (k : case) : bool :=
   && chk_val3 (k_cval k) (fun sl => on_conj c (fun e' => valueQs sl e' w y))
   && chk_shape (k_ccshape k) cc
   && chk_val3 (k_ccval k) (fun sl => on_conj cc (fun e'' => valueQs sl e'' w x))
-  && chk_vec (k_prox k) (proxQ e w s x)
-  && chk_vec (k_cprox k) (on_conj c (fun e' => proxQ e' w (Qdiv' 1 s) (map (fun a => Qdiv' a s) x)))
+  && chk_vec (k_prox k) (proxQ e w s x) && chk_vec (k_prox_f k) (proxQ e w s x) && chk_vec (k_prox_a k) (proxQ e w s x)
+  && (let cp := on_conj c (fun e' => proxQ e' w (Qdiv' 1 s) (map (fun a => Qdiv' a s) x)) in
+      chk_vec (k_cprox k) cp && chk_vec (k_cprox_f k) cp && chk_vec (k_cprox_a k) cp)
   && chk_vec (k_grad k) g
   && chk_val3 (k_cgval k)
        (fun sl => match g with Ok gx => on_conj c (fun e' => valueQs sl e' w gx) | Err er => Err er end).
@@ -138,7 +143,8 @@ Definition cSep2 := @FSep2 Q.
 (* Functional.__mul__(0): ConstantFunctional(f(0)), evaluated eagerly at construction *)
 Definition cMul0 (w : list Q) (f : fx) : fx :=
   match valueQ f w (map (fun _ => 0) w) with Ok (EFin v) => FConst v | _ => FConst 0 end.
-(* GroupL1Norm(S, 2) / IndicatorGroupL1UnitBall(S, 2) on the power space S = X^d, X with m points *)
-Definition cGroup (d m : nat) (b : bool) : fx := FPair b (group_pair Qsqrt d m).
+(* GroupL1Norm(S, 2) / IndicatorGroupL1UnitBall(S, 2) on the power space S = X^d with component weights cw
+   (ProductSpace(X, d, weighting=cw); [1; ..; 1] when unweighted), X with m points *)
+Definition cGroup (cw : list Q) (m : nat) (b : bool) : fx := FPair b (group_pair Qsqrt cw m).
 Definition cBreg (w : list Q) (f : fx) (p g : list Q) : fx :=
   match @bregman Q _ Qsqrt 0 f w p g with Ok e => e | Err _ => FConst 0 end.
